@@ -29,6 +29,10 @@ type meta struct {
 
 	creation int64 // used for the meta process Uptime method only
 	state    int32
+
+	// reason Start() ended with. If the mailbox handler goroutine is inside a callback
+	// at that moment, the termination is left to that goroutine (see start/handle)
+	exitReason error
 }
 
 func (m *meta) ID() gen.Alias {
@@ -104,9 +108,10 @@ func (m *meta) start() {
 				pc, fn, line, _ := runtime.Caller(2)
 				m.log.Panic("meta process %s terminated - %#v at %s[%s:%d]", m.id,
 					rcv, runtime.FuncForPC(pc).Name(), fn, line)
+				m.exitReason = gen.TerminateReasonPanic
 				lib.VerifPoint("meta.s.swapT", m)
 				old := atomic.SwapInt32(&m.state, int32(gen.MetaStateTerminated))
-				if old != int32(gen.MetaStateTerminated) {
+				if old != int32(gen.MetaStateTerminated) && old != int32(gen.MetaStateRunning) {
 					lib.VerifPoint("meta.s.del", m)
 					m.p.node.aliases.Delete(m.id)
 					atomic.StoreInt32(&m.state, int32(gen.MetaStateTerminated))
@@ -131,14 +136,17 @@ func (m *meta) start() {
 	lib.VerifPoint("meta.s.run", m)
 	reason := m.behavior.Start()
 	// meta process terminated
+	if reason == nil {
+		reason = gen.TerminateReasonNormal
+	}
+	m.exitReason = reason
 	lib.VerifPoint("meta.s.swapT", m)
 	old := atomic.SwapInt32(&m.state, int32(gen.MetaStateTerminated))
-	if old != int32(gen.MetaStateTerminated) {
+	// if the mailbox handler is running a callback right now it finishes that callback
+	// and terminates the meta process itself (with m.exitReason)
+	if old != int32(gen.MetaStateTerminated) && old != int32(gen.MetaStateRunning) {
 		lib.VerifPoint("meta.s.del", m)
 		m.p.node.aliases.Delete(m.id)
-		if reason == nil {
-			reason = gen.TerminateReasonNormal
-		}
 		m.p.node.RouteTerminateAlias(m.id, reason)
 		m.behavior.Terminate(reason)
 	}
@@ -160,6 +168,7 @@ func (m *meta) handle() {
 		lib.VerifPoint("meta.h.start", m)
 		defer lib.VerifPoint("meta.h.exit", m)
 		var message *gen.MailboxMessage
+		var terminating bool // this goroutine has started the termination of the meta process
 
 		if lib.Recover() {
 			defer func() {
@@ -168,15 +177,21 @@ func (m *meta) handle() {
 					m.log.Panic("meta process %s terminated - %#v at %s[%s:%d]", m.id,
 						rcv, runtime.FuncForPC(pc).Name(), fn, line)
 
+					if terminating {
+						// panic in the Terminate callback
+						return
+					}
 					lib.VerifPoint("meta.h.swapT", m)
 					old := atomic.SwapInt32(&m.state, int32(gen.MetaStateTerminated))
-					if old != int32(gen.MetaStateTerminated) {
-						lib.VerifPoint("meta.h.del", m)
-						m.p.node.aliases.Delete(m.id)
-						reason = gen.TerminateReasonPanic
-						m.p.node.RouteTerminateAlias(m.id, reason)
-						m.behavior.Terminate(reason)
+					reason = gen.TerminateReasonPanic
+					if old == int32(gen.MetaStateTerminated) {
+						// Start() has ended meanwhile and left the termination to this goroutine
+						reason = m.exitReason
 					}
+					lib.VerifPoint("meta.h.del", m)
+					m.p.node.aliases.Delete(m.id)
+					m.p.node.RouteTerminateAlias(m.id, reason)
+					m.behavior.Terminate(reason)
 				}
 			}()
 		}
@@ -265,18 +280,27 @@ func (m *meta) handle() {
 			// terminated
 			lib.VerifPoint("meta.h.swapT", m)
 			old := atomic.SwapInt32(&m.state, int32(gen.MetaStateTerminated))
-			if old != int32(gen.MetaStateTerminated) {
-				lib.VerifPoint("meta.h.del", m)
-				m.p.node.aliases.Delete(m.id)
-				m.p.node.RouteTerminateAlias(m.id, reason)
-				m.behavior.Terminate(reason)
+			if old == int32(gen.MetaStateTerminated) {
+				// Start() has ended meanwhile and left the termination to this goroutine
+				reason = m.exitReason
 			}
+			terminating = true
+			lib.VerifPoint("meta.h.del", m)
+			m.p.node.aliases.Delete(m.id)
+			m.p.node.RouteTerminateAlias(m.id, reason)
+			m.behavior.Terminate(reason)
 			return
 		}
 
 		lib.VerifPoint("meta.h.cas.sleep", m)
 		if atomic.CompareAndSwapInt32(&m.state, int32(gen.MetaStateRunning), int32(gen.MetaStateSleep)) == false {
-			// terminated. seems the main loop is stopped. do nothing.
+			// Start() has ended while this goroutine was handling the mailbox and
+			// left the termination to it
+			reason = m.exitReason
+			terminating = true
+			m.p.node.aliases.Delete(m.id)
+			m.p.node.RouteTerminateAlias(m.id, reason)
+			m.behavior.Terminate(reason)
 			return
 		}
 
